@@ -443,6 +443,9 @@ C01_EXTRA = {
     'tag-on-head-wrapper': ["A\n", O('m', RX + ' unwrap-block'), "\n{", O('t', RT), "\nq\n", C('t'), H(2, 'ws'), "\nk\n}\n", C('m'), H(2, 'any')],
     'tag-on-tail-wrapper': ["A\n", O('m', RX + ' unwrap-block'), "\n{\nk", H(2, 'ws'), O('t', RT), "\nq\n", C('t'), "}\n", C('m'), H(2, 'any')],
     'inline-child-in-wrapper': ["A\n", O('t', RT + ' unwrap-block'), "\nif ", O('m', RX), "c", C('m'), " {\n", H(2, 'ws'), "k\n}\n", C('t'), H(2, 'ws')],
+    'text-before-unwrap-tag-and-after-wrapper-child': ["a\n", H(1, 'ind'), "x ", O('t', RT + ' unwrap-block'), "\n{ ", O('m', RX), "\n foo\n ", C('m'), H(3, 'any'), "\n  bar\n", H(1, 'ind'), "baz\n\n}\n", C('t'), "\n"],
+    'wrapper-line-ends-multibyte': ["A\n", O('m', RX + ' unwrap-block'), "\nif (x) { //", H(3, 'nb'), "\n  k;\n} //", H(3, 'nb'), "\n", C('m'), "\nB\n"],
+    'adjacent-then-unwrap-last': ["a ", O('m', RX), "x", C('m'), O('t', RT), "y", C('t'), H(1, 'ws'), "b\n", O('m', RX + ' unwrap-block'), "\n{\n  k;\n}\n", C('m'), H(1, 'ws')],
     'multibyte-end': [H(2, 'any'), O('m', RX), "q", C('m'), H(4, 'any')],
     'blank-tag': [H(1, 'any'), "<", H(2, 'ws'), ">", H(2, 'any'), O('m', RX), "q", C('m'), "<>", H(1, 'any')],
     'unwrap-at-start': [O('m', RX + ' unwrap-block'), "\n", H(2, 'ws'), "{\nk\n}\n", H(1, 'ws'), C('m'), H(2, 'any')],
